@@ -497,7 +497,7 @@ spec_runner!(run_s6, specs::s6::SpecSix, specs::s6::SPECSIX_TEXT, "SpecSix");
 pub fn run(args: &Args, rec: &mut Recorder) {
     rec.rule = "evaluation = one IF_DATA block handled through the types generated by a2ml_specification! (six fixed specifications compiled with the in-tree a2lmacros, together using every A2ML construct): instances generated from the generated text constant X_TEXT (read by an independent A2ML reader) must be valid under X_TEXT (as built-in argument and as in-file A2ML), load_from_ifdata must yield a value, store_to_ifdata followed by load_from_ifdata must yield an equal value, and the text written after load+store must hold the original tokens; IF_DATA that is valid under a structurally mutated in-file definition is handed to load_from_ifdata, which must not panic. distinct_nontrivial = distinct documents by content hash".into();
     rec.assumptions.push("the macro's non-standard `ident` member type is not used (its text constant is not A2ML); value equality is the generated PartialEq; the generic trees before and after store are not compared".into());
-    let total: u64 = if args.thorough { 2_000_000 } else { 40_000 };
+    let total: u64 = if args.thorough { 2_000_000 } else { 150_000 };
     run_cases(args, rec, total, crate::util::reset_budget, |rng, case, rec| {
         match case % 6 {
             0 => run_s1(rng, rec, case / 6),
